@@ -36,6 +36,17 @@ func verifDir() string {
 	return "/verif"
 }
 
+// homeDir is where the checker's own committed inputs live (corpus, selftest); unlike verifDir it is not redirected by CFFVERIF_DIR.
+func homeDir() string {
+	if exe, err := os.Executable(); err == nil {
+		d := filepath.Dir(filepath.Dir(exe))
+		if _, err := os.Stat(filepath.Join(d, "corpus")); err == nil {
+			return d
+		}
+	}
+	return "/verif"
+}
+
 func allRules() []report.Rule {
 	var out []report.Rule
 	out = append(out, sched.Rules...)
@@ -190,7 +201,7 @@ func runEngines(es engineSet, tier string, sink *report.Sink) (errs []string) {
 
 // regenInstances runs the Y front end: /verif/corpus always; /repo's own cff-tagged test corpora in the thorough tier.
 func regenInstances(repoDir, tier string, sink *report.Sink) ([]*gen.Instance, error) {
-	vd := verifDir()
+	vd := homeDir()
 	corpora := []regen.Corpus{
 		{Name: "corpus", Src: filepath.Join(vd, "corpus"), Module: "example.com/corpus", Cmds: [][]string{{".", "./..."}}, VRules: true},
 		{Name: "corpus-sourcemap", Src: filepath.Join(vd, "corpus"), Module: "example.com/corpus", Cmds: [][]string{{".", "-genmode", "source-map", "./..."}}, VRules: tier == "thorough"},
@@ -233,6 +244,9 @@ func regenInstances(repoDir, tier string, sink *report.Sink) ([]*gen.Instance, e
 	// V19: outside directive sites the generated file is the source file
 	for _, fc := range res.Outside {
 		sink.Check(fc.Bad == "", "V19", fc.Key+"|identical to the source outside directive sites, imports only added", fc.Key, "", "the generated file differs from its source outside the directive call sites: "+fc.Bad)
+	}
+	for _, fc := range res.Tags {
+		sink.Check(fc.Bad == "", "V21", fc.Key+"|generated file selected iff source selected with cff flipped", fc.Key, "all tag assignments enumerated", "build constraints are not exactly inverted: "+fc.Bad)
 	}
 	// V20: base and source-map outputs are the same token stream (comments and line directives aside)
 	base, sm := res.Tokens["corpus"], res.Tokens["corpus-sourcemap"]
